@@ -154,6 +154,26 @@ SHAPES = [
     ("I3", ["if a then", None, "else if d then", None, "else", None]),
 ]
 
+# Larger trees added to the enumerated ones: (shape, [block, ...]) with block = [stmt, ...]
+def _t(sh, *blocks):
+    return {"sh": sh, "bl": [list(b) for b in blocks]}
+
+
+EXTRA_TREES = [
+    [_t("Q2", [_t("L2"), _t("L3")], [_t("L5"), _t("L6")])],                       # } where {
+    [_t("Q2", [_t("L5")], [_t("L2"), _t("L3")]), _t("L2")],
+    [_t("I3", [_t("L2")], [_t("L3"), _t("L5")], [_t("L6")])],                      # if / else if / else
+    [_t("I3", [_t("L5"), _t("L2")], [_t("L5")], [_t("L3"), _t("L2")]), _t("L3")],
+    [_t("D1", [_t("I2", [_t("L5")], [_t("L6")]), _t("L2")])],
+    [_t("D1", [_t("I1", [_t("I1", [_t("L5")])]), _t("L3")])],                      # nesting 4
+    [_t("A1", [_t("D1", [_t("L2"), _t("L3")]), _t("D1", [_t("L5")]), _t("L2")])],  # a domain body
+    [_t("C1", [_t("L4"), _t("L4")]), _t("A1", [_t("Q1", [_t("D1", [_t("L3")])])])],
+    [_t("I2", [_t("Q1", [_t("L2"), _t("L5")])], [_t("I2", [_t("L3")], [_t("L5"), _t("L6")])])],
+    [_t("M1", [_t("L5"), _t("M1", [_t("L2"), _t("L3")])]), _t("F1", [_t("W1", [_t("L5"), _t("L2")])])],
+    [_t("Q2", [_t("I2", [_t("L2"), _t("L2")], [_t("L5")])], [_t("D1", [_t("L3"), _t("L5")])])],
+    [_t("L3"), _t("I1", [_t("L3")]), _t("L3"), _t("Q2", [_t("L3"), _t("L3")], [_t("L3")])],
+]
+
 EXTRA_TOKENS = ["--c", "-- c", "{", "}", ";", "#pile", "#endpile", "_"]
 
 
@@ -254,6 +274,8 @@ def emit_vocab(path, shapes=None, progs=None):
     L.append("")
     for cls, nm in (("com", "Comments"), ("int", "IntLits"), ("str", "StrLits"), ("float", "FloatLits")):
         L.append("%s == {%s}" % (nm, ", ".join(tla_str(t) for t in toks if token_class(t) == cls)))
+    L.append("")
+    L.append("ExtraTrees == %s" % tla_seq([_tree_tla(t) for t in EXTRA_TREES]))
     L.append("")
     L.append("ProgNames == %s" % tla_seq([tla_str(n) for n, t in trees]))
     L.append("ProgTrees == %s" % tla_seq([_tree_tla(t) for n, t in trees]))
